@@ -31,6 +31,15 @@ func vfGenC13(t *rapid.T) vfRecCase {
 		c.Ev = append(c.Ev[:at], append(bad, c.Ev[at:]...)...)
 	}
 	c.Lepton = rapid.Bool().Draw(t, "lepton")
+	if rapid.IntRange(0, 2).Draw(t, "failingstops") == 0 {
+		// the stop that a bad frame forces may itself fail (the file cannot be renamed): the frame is a bad frame all
+		// the same, and is reported as one
+		c.Faults.MStop = vfGenOrdinals(t, "mstopfail", 3)
+		c.Faults.CStop = vfGenOrdinals(t, "cstopfail", 4)
+		if rapid.Bool().Draw(t, "allmstops") {
+			c.Faults.MStop = []int{0, 1, 2, 3, 4, 5, 6, 7, 8, 9}
+		}
+	}
 	return c
 }
 
